@@ -2,6 +2,8 @@
 """Print DESIGN §12.7 table rows for the seeded changes whose name ends with <suffix><k> (from their meta.json)."""
 import json, sys, glob, re
 suf = sys.argv[1]
+# optional second argument: a JSON file {name: "what had to change"} appended to the rows as "— **missed**: ..."
+notes = json.load(open(sys.argv[2])) if len(sys.argv) > 2 else {}
 for d in sorted(glob.glob(f'/verif/seeded/C??{suf}?')):
     name = d.split('/')[-1]
     m = json.load(open(d + '/meta.json'))
@@ -11,4 +13,5 @@ for d in sorted(glob.glob(f'/verif/seeded/C??{suf}?')):
             sig = (r.get('violation_signatures') or [''])[0]
             sig = re.sub(r'/root/\.cargo/registry/src/[^/]+/', '', sig)
             det.append(f"{chk} `{sig[:70]}`")
-    print(f"| {name} {m['change']} | {m.get('needs_to_manifest','')} | {'; '.join(det) if det else '**not detected**'} |")
+    note = f" — **missed**: {notes[name]}" if name in notes else ""
+    print(f"| {name} {m['change']} | {m.get('needs_to_manifest','')} | {'; '.join(det) if det else '**not detected**'}{note} |")
